@@ -401,56 +401,42 @@ theorem match_check_ok {r : CR Unit} {l d : Lit}
   | error e => simp [Except.map] at h
   | ok u => cases u; simp [Except.map] at h; exact ⟨rfl, h⟩
 
-theorem match_fltOfInt_ok {o : Option FBits} {x : FBits}
-    (h : (match o with | some x => (.ok x : CR FBits) | none => ccrash "OverflowError") = .ok x) : o = some x := by
-  cases o <;> simp [ccrash] at h ⊢; exact h
+/-- what an accepted default went through: the coercion, `data_type.check` of the stored value, and the three
+refusals (nullable, alias of nullable, not a primitive / union) -/
+theorem fieldDefault_ok {E : Ext} {C : CExt} {us : List CUnion} {t : IrTy} {lit d : Lit}
+    (h : fieldDefault E C us t lit = .ok d) :
+    coerceDefault E t lit = .ok d ∧ check E C us t d = .ok () ∧ t.isNullableLit = false ∧
+      (unwrapAliases t).isNullableLit = false ∧ defaultable (unwrapAll t) = true := by
+  have key : ∀ (t : IrTy), t.isNullableLit = false → populateDefault E C us t lit = .ok d →
+      coerceDefault E t lit = .ok d ∧ check E C us t d = .ok () ∧ t.isNullableLit = false ∧
+        (unwrapAliases t).isNullableLit = false ∧ defaultable (unwrapAll t) = true := by
+    intro t hn h
+    unfold populateDefault at h
+    split at h
+    · simp [invalid] at h
+    · rename_i h1
+      split at h
+      · simp [invalid] at h
+      · rename_i h2
+        cases hc : coerceDefault E t lit with
+        | error e => simp [hc] at h
+        | ok d' =>
+          simp only [hc] at h
+          obtain ⟨h3, h4⟩ := match_check_ok h
+          subst h4
+          exact ⟨rfl, h3, hn, by simpa using h1, by simpa using h2⟩
+  cases t
+  case void => simp [fieldDefault, invalid] at h
+  case nullable => simp [fieldDefault, invalid] at h
+  all_goals exact key _ rfl (by simpa only [fieldDefault] using h)
 
 /-- the stored default passed `data_type.check` -/
 theorem fieldDefault_check {E : Ext} {C : CExt} {us : List CUnion} {t : IrTy} {lit d : Lit}
-    (h : fieldDefault E C us t lit = .ok d) : check E C us t d = .ok () := by
-  cases t
-  case void => simp [fieldDefault] at h
-  case nullable => simp [fieldDefault] at h
-  case float cls mn mx =>
-    simp only [fieldDefault] at h
-    cases lit with
-    | null => simp [ccrash] at h
-    | tagref _ => simp [ccrash] at h
-    | flt x =>
-      obtain ⟨h1, h2⟩ := match_check_ok h
-      subst h2; exact h1
-    | int n =>
-      cases hx : E.fltOfInt n with
-      | none => simp [hx, ccrash] at h
-      | some x =>
-        simp only [hx] at h
-        obtain ⟨h1, h2⟩ := match_check_ok h
-        subst h2; exact h1
-    | bool b =>
-      cases hx : E.fltOfInt (if b = true then 1 else 0) with
-      | none => simp [hx, ccrash] at h
-      | some x =>
-        simp only [hx] at h
-        obtain ⟨h1, h2⟩ := match_check_ok h
-        subst h2; exact h1
-    | str s =>
-      cases hx : C.fltOfStr s with
-      | none => simp [hx, invalid] at h
-      | some x =>
-        simp only [hx] at h
-        obtain ⟨h1, h2⟩ := match_check_ok h
-        subst h2; exact h1
-  all_goals
-    simp only [fieldDefault] at h
-    split at h
-    · simp [invalid] at h
-    · obtain ⟨h1, h2⟩ := match_check_ok h
-      subst h2; exact h1
+    (h : fieldDefault E C us t lit = .ok d) : check E C us t d = .ok () := (fieldDefault_ok h).2.1
 
 /-- a field that carries a default is not nullable (neither literally nor through aliases) and not Void -/
 theorem fieldDefault_not_nullable {E : Ext} {C : CExt} {us : List CUnion} {t : IrTy} {lit d : Lit}
-    (h : fieldDefault E C us t lit = .ok d) : t.isNullableLit = false := by
-  cases t <;> simp [fieldDefault, invalid, IrTy.isNullableLit] at h ⊢
+    (h : fieldDefault E C us t lit = .ok d) : t.isNullableLit = false := (fieldDefault_ok h).2.2.1
 
 /-! ## `validate_type_only` and assignment -/
 
